@@ -17,6 +17,7 @@ import LdkModel.Proofs.GossipRgs
 import LdkModel.Proofs.GossipAsync
 import LdkModel.Proofs.GossipAsyncEquiv
 import LdkModel.Proofs.GossipRgsNodes
+import LdkModel.Proofs.GossipRgsIdem
 import LdkModel.Proofs.GossipPersist
 import LdkModel.Model.GossipOrder
 import LdkModel.Generated.TlvSchemas
@@ -722,5 +723,37 @@ theorem rgs_snapshot_with_pruning_not_idempotent :
       .msg (.chanUpd ⟨3, true, false, 10, 40, 1, 4000, 1, 2, true, false, false, 0⟩)],
    ⟨2900000, some 3000000, [], [⟨3, none, 1, 2⟩], 40, 1, 10, 20, 900000, [⟨3, 128, 0, 0, 0, 0, 0⟩]⟩,
    by decide, by decide, by decide⟩
+
+
+
+/-- DOCUMENTED DIFFERENCE 4: a lookup that FAILS still replays what was parked in it. A node announcement parked in
+    the failed lookup of channel 3 lands in the graph at the resolution because the node became known through
+    another channel (2) in the meantime; with the synchronous (failing) answer it was refused on arrival
+    (`noChannelsForNode`) and is never seen again. Both graphs hold only authentic data. -/
+theorem async_failed_lookup_still_replays_parked :
+    ∃ (a b : ChanAnn) (n : NodeAnn),
+      (((Async.run Async.State.empty [.annAsync a 3, .base (.msg (.nodeAnn n)), .base (.msg (.chanAnn b)),
+          .resolve 3 .unknownTx, .process 100]).g.nodes.get n.node).bind (fun x => x.ann)).isSome = true ∧
+      (((Async.run Async.State.empty [.base (.msg (.chanAnn (Async.reAnswer a .unknownTx 100))), .base (.msg (.nodeAnn n)),
+          .base (.msg (.chanAnn b))]).g.nodes.get n.node).bind (fun x => x.ann)).isSome = false :=
+  ⟨⟨3, 4, 5, false, true, true, true, true, true, true, .unknownTx, 100⟩,
+   ⟨2, 4, 5, false, true, true, true, true, true, true, .value 1000, 100⟩,
+   ⟨4, 9, 77, true, true⟩, by decide, by decide⟩
+
+
+
+/-- SNAPSHOT IDEMPOTENCE, the part that holds for all inputs: a snapshot WITHOUT channel updates (announcements
+    and node reminders only — processing.rs returns before the pruning) applied a second time, on top of ANY graph,
+    changes nothing and answers the same. `_partial`: missing are snapshots that carry channel updates — without
+    the final pruning they are idempotent on every generated input (implementation oracle, phase E1) but not proved;
+    WITH the final pruning idempotence is FALSE: `rgs_snapshot_with_pruning_not_idempotent`. -/
+theorem rgs_idempotent_without_updates_partial (g : Graph) (s : Impl.Snapshot) (hu : s.upds = []) :
+    Impl.applySnapshot (Impl.applySnapshot g s).1 s = Impl.applySnapshot g s :=
+  Impl.snapshot_idem_no_updates g s hu
+
+example : ∃ (g : Graph) (s : Impl.Snapshot), s.upds = [] ∧ (Impl.applySnapshot g s).1.channels.size = 2 ∧
+    ((Impl.applySnapshot g s).1.nodes.get 1).bind (fun n => n.ann.map (·.lastUpdate)) = some 95200 :=
+  ⟨Impl.run Graph.empty [.msg (.chanAnn ⟨3, 1, 2, false, true, true, true, true, true, true, .noLookup, 100⟩)],
+   ⟨700000, none, [⟨1, 66⟩], [⟨3, none, 1, 2⟩, ⟨4, some 700, 2, 3⟩], 40, 1, 10, 20, 900000, []⟩, rfl, by decide, by decide⟩
 
 end Ldk.C17
